@@ -1,3 +1,452 @@
 import Driver.Common
-/- stub: model driver for C19 not built yet -/
-def main : IO Unit := Driver.lineLoop (fun _ => "unimplemented")
+import ThriftVerif.Lib.AsyncPP
+import ThriftVerif.Generated.C19
+import Std.Data.HashSet
+import Std.Data.HashMap
+
+/-
+  Model driver for C19 (tv_c19).  The LTS is always instantiated with `Generated.C19.facts`
+  (the skeleton extracted from the working tree), so it stays executable when the facts changed.
+
+  stdin mode (no args), one answer per line:
+    T <cfg> | <events>      replay a controlled trace of the real OnFinished as a path of the LTS
+    F <cfg> | <ret> <written>   is this final observation one of the LTS's reachable finals?
+  gen <seed> <count> <maxN> <maxK>    model paths (random + adversarial walks) to force on the implementation
+  explore <maxN> <maxK>               bounded search of the LTS for states violating a statement; prints
+                                      one shortest path per violation kind (to be forced on the implementation)
+  facts                               prints whether the generated facts equal `expected`
+
+  <cfg> = <conc> <pp:0|1> <N> then N times: <hexpath> <hexcontent> <o|p|w|b>
+-/
+namespace Driver.C19
+open AsyncPP
+
+def F : Facts := Generated.C19.facts
+
+structure PCfg where
+  cfg : Cfg
+  n : Nat
+  hasPP : Bool
+  fl : Array Char
+  key : String
+
+def ppfOn (p c : Bytes) : Bytes := c ++ [35] ++ p
+
+def mkCfg (conc : Nat) (hasPP : Bool) (jobs : List (Bytes × Bytes)) (fl : Array Char) : PCfg :=
+  { cfg := { jobs := jobs, conc := conc,
+             failPP := fun k => hasPP && (fl.getD k 'o' == 'p' || fl.getD k 'o' == 'b'),
+             failWr := fun k => fl.getD k 'o' == 'w' || fl.getD k 'o' == 'b',
+             ppf := if hasPP then ppfOn else fun _ c => c },
+    n := jobs.length, hasPP := hasPP, fl := fl,
+    key := s!"{conc} {VL.boolStr hasPP} {String.ofList fl.toList} " ++
+      " ".intercalate (jobs.map fun (p, c) => VL.hexEncode p ++ ":" ++ VL.hexEncode c) }
+
+def parseJobs : Nat → List String → Option (List (Bytes × Bytes) × List Char × List String)
+  | 0, rest => some ([], [], rest)
+  | n + 1, p :: c :: f :: rest => do
+    let pb ← VL.hexDecode p
+    let cb ← VL.hexDecode c
+    let fc ← f.toList.head?
+    let (js, fs, r) ← parseJobs n rest
+    pure ((pb, cb) :: js, fc :: fs, r)
+  | _, _ => none
+
+def parseCfg : List String → Option (PCfg × List String)
+  | conc :: pp :: n :: rest => do
+    let c ← conc.toNat?
+    let n ← n.toNat?
+    let (js, fs, r) ← parseJobs n rest
+    pure (mkCfg c (pp == "1") js fs.toArray, r)
+  | _ => none
+
+/-- default job list used by gen/explore: path "a/<k>", content "c<k>" -/
+def defJob (k : Nat) : Bytes × Bytes :=
+  (VL.ofAscii s!"d{k % 2}/f{k}", VL.ofAscii s!"c{k}")
+
+def cfgToks (pc : PCfg) : String :=
+  let js := (List.range pc.n).map fun k =>
+    let (p, c) := pc.cfg.jobs.getD k ([], [])
+    s!"{VL.hexEncode p} {VL.hexEncode c} {pc.fl.getD k 'o'}"
+  s!"{pc.cfg.conc} {VL.boolStr pc.hasPP} {pc.n}" ++ (if js.isEmpty then "" else " " ++ " ".intercalate js)
+
+-- ---------------------------------------------------------------- observations
+
+def insertSorted (x : String) : List String → List String
+  | [] => [x]
+  | y :: r => if x ≤ y then x :: y :: r else y :: insertSorted x r
+
+def writtenStr (s : State) : String :=
+  let l := s.written.map fun (_, p, c) => VL.hexEncode p ++ ":" ++ VL.hexEncode c
+  if l.isEmpty then "-" else ",".intercalate (l.foldr insertSorted [])
+
+def retStr : Option (Option Nat) → String
+  | none => "none"
+  | some none => "nil"
+  | some (some e) => s!"e{e}"
+
+-- ---------------------------------------------------------------- trace replay
+
+inductive G | d | w (k : Nat) deriving DecidableEq, Repr, BEq
+
+structure Ev where
+  g : G
+  code : String
+  arg : String      -- job index text or rt value
+  release : Bool    -- "+g" marker
+  tok : String
+
+def parseEv (t : String) : Option Ev :=
+  if t.startsWith "+" then
+    let r := (t.drop 1).toString
+    if r == "d" then some ⟨.d, "+", "", true, t⟩ else (r.toNat?).map fun k => ⟨.w k, "+", "", true, t⟩
+  else if t.startsWith "rt:" then some ⟨.d, "rt", (t.drop 3).toString, false, t⟩
+  else
+    let code := (t.take 2).toString
+    let arg := (t.drop 2).toString
+    if ["di", "ac", "er", "ey", "sp", "fw", "fd", "fe", "fn"].contains code then some ⟨.d, code, arg, false, t⟩
+    else if ["ws", "wp", "ww", "we", "wt", "wx", "wr"].contains code then (arg.toNat?).map fun k => ⟨.w k, code, arg, false, t⟩
+    else none
+
+structure RS where
+  s : State
+  inflight : List G
+  prevD : String     -- code of the dispatcher's previous event
+  dAhead : Nat       -- labels of the dispatcher's next event already fired in advance
+
+/-- labels the dispatcher performs between its previous trace point and arriving at `code` -/
+def dLabels (prevD code : String) : List Label :=
+  match code with
+  | "di" | "fw" => if prevD == "sp" then [.spawn] else []
+  | "ac" => [.acquire]
+  | "er" => [.recvErr]
+  | "sp" => [.add]
+  | "ey" => [.earlyRet]
+  | "fd" => [.finalWait]
+  | "fe" | "fn" => [.finalRecv]
+  | _ => []
+
+/-- is worker k still before the point `code`?  (then it has to perform its next operation) -/
+def wNeeds (s : State) (k : Nat) (code : String) : Option Bool :=
+  match s.workers[k]? with
+  | none => none
+  | some w =>
+    some (match code with
+      | "wp" => w.ops.contains .pp
+      | "ww" => w.ops.contains .write
+      | "wt" => w.ops.contains .send
+      | "wr" => !w.ops.isEmpty
+      | _ => false)
+
+/-- one step towards event `e` of its own goroutine. `some (rs', true)` = event complete,
+    `some (rs', false)` = made a step, `none` = next step not enabled -/
+def advance (pc : PCfg) (rs : RS) (e : Ev) : Option (RS × Bool) :=
+  match e.g with
+  | .d =>
+    let ls := (dLabels rs.prevD e.code).drop rs.dAhead
+    match ls with
+    | [] => some (rs, true)
+    | l :: rest =>
+      match step F pc.cfg rs.s l with
+      | none => none
+      | some s' => some ({ rs with s := s', dAhead := rs.dAhead + 1 }, rest.isEmpty)
+  | .w k =>
+    match wNeeds rs.s k e.code with
+    | none => none     -- worker not spawned in the model yet
+    | some false => some (rs, true)
+    | some true =>
+      match step F pc.cfg rs.s (.work k) with
+      | none => none
+      | some s' => some ({ rs with s := s' }, false)
+
+def firstEvOf (g : G) : List Ev → Option Ev
+  | [] => none
+  | e :: r => if e.g == g && !e.release then some e else firstEvOf g r
+
+/-- fire one step of some in-flight goroutine other than `me`, guided by its next arrival in the trace -/
+def prefire (pc : PCfg) (rs : RS) (me : G) (rest : List Ev) : List G → Option RS
+  | [] => none
+  | h :: hs =>
+    if h == me then prefire pc rs me rest hs else
+    match firstEvOf h rest with
+    | none => prefire pc rs me rest hs
+    | some e =>
+      match advance pc rs e with
+      | some (rs', done) =>
+        -- a completed no-op is no progress
+        if rs'.s == rs.s && done then prefire pc rs me rest hs else some rs'
+      | none => prefire pc rs me rest hs
+
+def checkEv (rs : RS) (e : Ev) : Option String :=
+  match e.code with
+  | "fe" => match rs.s.ret with | some (some _) => none | _ => some "final-err but model returns nil"
+  | "fn" => if rs.s.ret == some none then none else some "final-nil but model returns an error"
+  | "rt" => if retStr rs.s.ret == e.arg then none else some s!"returned {e.arg} but model {retStr rs.s.ret}"
+  | "we" => match rs.s.workers[(match e.g with | .w k => k | .d => 0)]? with
+            | some w => if w.failed then none else some "error send but model worker has no error"
+            | none => some "no such worker"
+  | _ => none
+
+partial def processEv (pc : PCfg) (rs : RS) (e : Ev) (rest : List Ev) : Except String RS :=
+  match advance pc rs e with
+  | some (rs', true) =>
+    match checkEv rs' e with
+    | some m => .error m
+    | none =>
+      let rs' := match e.g with
+        | .d => { rs' with prevD := e.code, dAhead := 0 }
+        | _ => rs'
+      .ok { rs' with inflight := rs'.inflight.filter (· != e.g) }
+  | some (rs', false) => processEv pc rs' e rest
+  | none =>
+    match prefire pc rs e.g rest rs.inflight with
+    | some rs' => processEv pc rs' e rest
+    | none => .error "not enabled"
+
+partial def replayLoop (pc : PCfg) (rs : RS) (i : Nat) : List Ev → String
+  | [] => s!"ok ret={retStr rs.s.ret} written={writtenStr rs.s} final={VL.boolStr rs.s.final}"
+  | e :: rest =>
+    if e.release then
+      -- a goroutine released from its spawn point also lets the new worker run
+      replayLoop pc { rs with inflight := e.g :: rs.inflight } (i + 1) rest
+    else
+      -- a worker that was never released explicitly is in flight from its creation
+      match processEv pc rs e rest with
+      | .error m => s!"reject@{i}:{e.tok}:{m}"
+      | .ok rs' => replayLoop pc rs' (i + 1) rest
+
+def splitBar (l : List String) : List String × List String :=
+  (l.takeWhile (· != "|"), (l.dropWhile (· != "|")).drop 1)
+
+def replayLine (toks : List String) : String :=
+  let (c, evs) := splitBar toks
+  match parseCfg c with
+  | none => "bad-cfg"
+  | some (pc, _) =>
+    match evs.mapM parseEv with
+    | none => "bad-events"
+    | some es => replayLoop pc ⟨init, [], "", 0⟩ 0 es
+
+-- ---------------------------------------------------------------- exploration
+
+structure Explored where
+  states : Array State
+  parent : Std.HashMap State (State × Label)
+  transitions : Nat
+
+instance : Inhabited Explored := ⟨⟨#[], ∅, 0⟩⟩
+
+partial def bfsLoop (cfg : Cfg) (limit : Nat) (queue : Array State) (qi : Nat)
+    (seen : Std.HashMap State (State × Label)) (tr : Nat) : Explored :=
+  if h : qi < queue.size then
+    if queue.size > limit then ⟨queue, seen, tr⟩ else
+    let s := queue[qi]
+    let (queue, seen, tr) := (enabled F cfg s).foldl (init := (queue, seen, tr)) fun (q, sn, t) l =>
+      match step F cfg s l with
+      | none => (q, sn, t)
+      | some s' => if sn.contains s' then (q, sn, t + 1) else (q.push s', sn.insert s' (s, l), t + 1)
+    bfsLoop cfg limit queue (qi + 1) seen tr
+  else ⟨queue, seen, tr⟩
+
+def bfs (cfg : Cfg) (limit : Nat := 2000000) : Explored :=
+  bfsLoop cfg limit #[init] 0 ((∅ : Std.HashMap State (State × Label)).insert init (init, .acquire)) 0
+
+partial def pathTo (ex : Explored) (s : State) (acc : List Label) : List Label :=
+  if s == init then acc else
+  match ex.parent[s]? with
+  | none => acc
+  | some (p, l) => pathTo ex p (l :: acc)
+
+def obsStr (s : State) : String := s!"{retStr s.ret} {writtenStr s}"
+
+/-- the forced step (goroutine>target trace point) that realises a label on the implementation -/
+def forcedTok (s : State) : Label → Option String
+  | .acquire => some "d>ac"
+  | .recvErr => some "d>er"
+  | .add => some "d>sp"
+  | .spawn => some "d>nx"
+  | .earlyRet => some "d>rt"
+  | .finalWait => some "d>fd"
+  | .finalRecv => some "d>rt"
+  | .work k =>
+    match s.workers[k]? with
+    | none => none
+    | some w =>
+      match w.ops with
+      | .pp :: _ => some s!"{k}>wp"
+      | .write :: _ => some s!"{k}>ww"
+      | .send :: _ => if w.failed then some s!"{k}>wt" else none
+      | .done :: _ => some s!"{k}>wr"   -- no trace point between wg.Done() and <-processing
+      | .release :: _ => some s!"{k}>xx"
+      | _ => none
+
+def forcedPath (cfg : Cfg) (ls : List Label) : List String :=
+  (ls.foldl (init := (init, ([] : List String))) fun (s, acc) l =>
+    let acc := match forcedTok s l with | some t => t :: acc | none => acc
+    match step F cfg s l with
+    | some s' => (s', acc)
+    | none => (s, acc)).2.reverse
+
+/-- which statement a state violates, if any -/
+def violation (cfg : Cfg) (s : State) : Option String :=
+  let n := cfg.jobs.length
+  if s.panicked then some "panic-negative-waitgroup"
+  else if !s.final && (enabled F cfg s).isEmpty then some "deadlock"
+  else if s.ret.isSome && s.workers.any (fun w => !w.quiescent) then some "return-with-work-in-flight"
+  else if s.ret == some none && (s.idx < n || s.workers.any (fun w => w.failed) ||
+      (List.range s.idx).any (fun k => cfg.jobFails k)) then some "nil-despite-failure"
+  else if (match s.ret with | some (some e) => !cfg.jobFails e | _ => false) then some "error-of-a-job-that-did-not-fail"
+  else if s.final && s.ret == some none && (s.written.map (·.1)).length != n then some "nil-but-not-all-written"
+  else if !(s.written.map (·.1)).Nodup then some "double-write"
+  else if s.written.any (fun (k, p, c) => match cfg.jobs[k]? with
+      | some (p0, c0) => !(p == p0 && c == cfg.ppf p0 c0) | none => true) then some "wrong-content"
+  else none
+
+def failPatterns : Nat → List (List Char)
+  | 0 => [[]]
+  | n + 1 => (failPatterns n).flatMap fun r => [('o' :: r), ('p' :: r), ('w' :: r)]
+
+def exploreAll (maxN maxK : Nat) : IO Unit := do
+  let mut found : Std.HashMap String String := ∅
+  let mut states := 0
+  let mut trans := 0
+  let mut cfgs := 0
+  for n in List.range (maxN + 1) do
+    for conc in List.range (maxK + 1) do
+      for fl in failPatterns n do
+        let pc := mkCfg conc true ((List.range n).map defJob) fl.toArray
+        let ex := bfs pc.cfg 400000
+        states := states + ex.states.size
+        trans := trans + ex.transitions
+        cfgs := cfgs + 1
+        for s in ex.states do
+          match violation pc.cfg s with
+          | none => pure ()
+          | some v =>
+            if !found.contains v then
+              let p := pathTo ex s []
+              found := found.insert v s!"X {v} {cfgToks pc} | {" ".intercalate (forcedPath pc.cfg p)}"
+  for (_, l) in found.toList do
+    IO.println l
+  IO.println s!"S configs={cfgs} states={states} transitions={trans} violations={found.size}"
+
+-- ---------------------------------------------------------------- F lines
+
+def finalsOf (pc : PCfg) : List String :=
+  let ex := bfs pc.cfg 3000000
+  (ex.states.foldl (init := (∅ : Std.HashSet String)) fun acc s =>
+    if s.final then acc.insert (obsStr s)
+    else if (enabled F pc.cfg s).isEmpty then acc.insert ("DEADLOCK " ++ obsStr s) else acc).toList
+
+-- ---------------------------------------------------------------- generation of model paths
+
+def rngNext (x : UInt64) : UInt64 × UInt64 :=
+  let s := x + 0x9E3779B97F4A7C15
+  let z := (s ^^^ (s >>> 30)) * 0xBF58476D1CE4E5B9
+  let z := (z ^^^ (z >>> 27)) * 0x94D049BB133111EB
+  (s, z ^^^ (z >>> 31))
+
+def rnd (r : UInt64) (n : Nat) : UInt64 × Nat :=
+  let (r, v) := rngNext r
+  (r, if n == 0 then 0 else v.toNat % n)
+
+/-- weight of a label under a walking strategy -/
+def weight (strat : Nat) (pc : PCfg) (s : State) (l : Label) : Nat :=
+  let isD := match l with | .work _ => false | _ => true
+  let failing (k : Nat) := pc.cfg.jobFails k
+  match strat with
+  | 0 => 1                                   -- uniform
+  | 1 => if isD then 50 else 1               -- dispatcher first: fill the semaphore
+  | 2 => if isD then 1 else 50               -- workers first
+  | 3 => match l with                        -- errors race the dispatcher: failing workers first, receive preferred
+         | .work k => if failing k then 40 else 1
+         | .recvErr => 200
+         | _ => 5
+  | 4 => match l with                        -- keep workers unreleased as long as possible
+         | .work k => (match s.workers[k]? with
+                       | some w => (match w.ops with | .done :: _ => 0 | .release :: _ => 0 | _ => 20)
+                       | none => 1)
+         | _ => 10
+  | _ => match l with                        -- last spawned worker first
+         | .work k => 1 + 10 * k
+         | _ => 3
+
+partial def walk (pc : PCfg) (strat : Nat) (s : State) (r : UInt64) (acc : List Label) (fuel : Nat) : List Label :=
+  if fuel == 0 then acc.reverse else
+  let en := enabled F pc.cfg s
+  if en.isEmpty then acc.reverse else
+  let ws := en.map (weight strat pc s)
+  let tot := ws.foldl (· + ·) 0
+  let (r, pick) := if tot == 0 then rnd r en.length else rnd r tot
+  let l := if tot == 0 then en.getD pick .acquire else
+    ((en.zip ws).foldl (init := (pick, (none : Option Label))) fun (rem, ch) (l, w) =>
+      match ch with
+      | some _ => (rem, ch)
+      | none => if rem < w then (rem, some l) else (rem - w, none)).2.getD .acquire
+  match step F pc.cfg s l with
+  | none => acc.reverse
+  | some s' => walk pc strat s' r (l :: acc) (fuel - 1)
+
+def genFl (r : UInt64) (n : Nat) : UInt64 × List Char :=
+  let (r, mode) := rnd r 6
+  match mode with
+  | 0 => (r, List.replicate n 'o')
+  | 1 => let (r, st) := rnd r 2; (r, List.replicate n (if st == 0 then 'p' else 'w'))
+  | 2 => (r, (List.range n).map fun k => if k + 1 == n then 'w' else 'o')
+  | 3 => (r, (List.range n).map fun k => if k == 0 then 'p' else 'o')
+  | _ => (List.range n).foldl (init := (r, [])) (fun (r, acc) _ =>
+           let (r, v) := rnd r 6
+           (r, acc ++ [if v == 0 then 'p' else if v == 1 then 'w' else if v == 2 then 'b' else 'o']))
+
+def genAll (seed count maxN maxK : Nat) : IO Unit := do
+  let mut r : UInt64 := UInt64.ofNat (seed * 7919 + 17)
+  for i in List.range count do
+    let (r1, n) := rnd r (maxN + 1)
+    let (r2, conc) := rnd r1 (maxK + 2)     -- 0 (clamped) .. maxK+1
+    let (r3, fl) := genFl r2 n
+    let (r4, strat) := rnd r3 6
+    let (r5, _) := rngNext r4
+    r := r5
+    let pc := mkCfg conc true ((List.range n).map defJob) fl.toArray
+    let p := walk pc (if i % 7 == 0 then 3 else strat) init r4 [] 10000
+    IO.println s!"P s{strat} {cfgToks pc} | {" ".intercalate (forcedPath pc.cfg p)}"
+
+-- ---------------------------------------------------------------- main
+
+partial def serve (cache : Std.HashMap String (List String)) : IO Unit := do
+  let stdin ← IO.getStdin
+  let stdout ← IO.getStdout
+  let line ← stdin.getLine
+  if line.isEmpty then stdout.flush; return ()
+  match VL.toks line with
+  | "T" :: rest =>
+    stdout.putStrLn (replayLine rest)
+    serve cache
+  | "F" :: rest =>
+    let (c, obs) := splitBar rest
+    match parseCfg c with
+    | none => stdout.putStrLn "bad-cfg"; serve cache
+    | some (pc, _) =>
+      let (fin, cache) := match cache[pc.key]? with
+        | some f => (f, cache)
+        | none => let f := finalsOf pc; (f, cache.insert pc.key f)
+      -- the written set of the observation uses the line's own jobs; finals are computed for them too
+      let o := " ".intercalate obs
+      stdout.putStrLn (if fin.contains o then "member" else s!"not-member of {fin.length} finals")
+      serve cache
+  | _ => stdout.putStrLn "bad-op"; serve cache
+
+end Driver.C19
+
+open Driver.C19 in
+def main (args : List String) : IO UInt32 := do
+  match args with
+  | [] => serve ∅; return 0
+  | ["facts"] =>
+    IO.println (if F = AsyncPP.expected then "facts=expected" else "facts=CHANGED")
+    IO.println (repr F).pretty
+    return 0
+  | ["gen", seed, count, maxN, maxK] =>
+    genAll seed.toNat! count.toNat! maxN.toNat! maxK.toNat!; return 0
+  | ["explore", maxN, maxK] =>
+    exploreAll maxN.toNat! maxK.toNat!; return 0
+  | _ => IO.eprintln "usage: tv_c19 [facts | gen seed count maxN maxK | explore maxN maxK]"; return 2
